@@ -84,13 +84,24 @@ impl Case {
     }
 
     /// Generate the case for (family, run seed). Sequential cases generate their steps while running.
-    pub fn generate(family: &str, seed: u64, index: u64, props: Props) -> (Case, Option<(Rng, usize)>) {
+    pub fn generate(
+        family: &str,
+        seed: u64,
+        index: u64,
+        props: Props,
+    ) -> (Case, Option<(Rng, usize)>) {
         let mut rng = Rng::new(seed);
         if family.starts_with('K') {
             let o = gen_opts(props);
-            (Case::Conc(crate::conc::gen_case(&mut rng, family, &o)), None)
+            (
+                Case::Conc(crate::conc::gen_case(&mut rng, family, &o)),
+                None,
+            )
         } else if family.starts_with('Q') && SpecialCase::is_special(family) {
-            (Case::Special(SpecialCase::generate(family, seed, index)), None)
+            (
+                Case::Special(SpecialCase::generate(family, seed, index)),
+                None,
+            )
         } else {
             let profile = Profile::by_name(family);
             let (case, n) = crate::seq::gen_case(&mut rng, &profile);
@@ -128,7 +139,11 @@ impl Case {
                 add(cs, "online_ok", s.online_ok);
                 add(cs, "probes_drain_base", s.probes_base);
                 add(cs, "probes_drain_targeted", s.probes_at);
-                add(cs, "probes_targeted_expected_success", s.probes_at_expected_ok);
+                add(
+                    cs,
+                    "probes_targeted_expected_success",
+                    s.probes_at_expected_ok,
+                );
                 add(cs, "full_frame_comparisons", s.full_compares);
                 add(cs, "huge_frame_splits", s.huge_splits);
                 add(cs, "sim_steps", s.steps);
@@ -164,7 +179,12 @@ impl Case {
                 };
                 let mut r = runner.run(c);
                 let mut sweep_points = 0u64;
-                if c.solo_sweep && props.has(21) && r.violations.is_empty() && r.stats.aborted == 0 && r.schedule.len() <= 400 {
+                if c.solo_sweep
+                    && props.has(21)
+                    && r.violations.is_empty()
+                    && r.stats.aborted == 0
+                    && r.schedule.len() <= 400
+                {
                     // systematic solo windows: the same interleaving, frozen at every step for
                     // every thread (fault enumeration over the solo point, C21)
                     let mut base = c.clone();
@@ -186,6 +206,52 @@ impl Case {
                         }
                     }
                 }
+                let mut pct_runs = 0u64;
+                let nthreads = c.programs.len();
+                if c.pct_sweep && r.violations.is_empty() && r.stats.aborted == 0 && nthreads <= 3 {
+                    // systematic depth-1 PCT: every priority order, the running thread demoted
+                    // below all others at every step (no spurious CAS failures, no solo windows)
+                    let mut base = c.clone();
+                    base.schedule = Vec::new();
+                    base.casfail_den = 0;
+                    base.casfail_at = Some(Vec::new());
+                    base.solo = Vec::new();
+                    base.solo_sweep = false;
+                    base.tail = None;
+                    let orders: &[&[u32]] = match nthreads {
+                        1 => &[&[1]],
+                        2 => &[&[2, 1], &[1, 2]],
+                        _ => &[&[3, 2, 1], &[3, 1, 2], &[2, 3, 1], &[1, 3, 2], &[2, 1, 3], &[1, 2, 3]],
+                    };
+                    'pct: for prio in orders {
+                        base.prio = prio.iter().map(|p| 1000 + p).collect();
+                        // without a change point: the threads one after the other; its length
+                        // bounds the useful change points
+                        base.strategy = Strategy::Pct { change: Vec::new() };
+                        let r0 = runner.run(&base);
+                        pct_runs += 1;
+                        let len = r0.stats.steps;
+                        if !r0.violations.is_empty() {
+                            *c = base.clone();
+                            r = r0;
+                            break 'pct;
+                        }
+                        for step in 0..len {
+                            let mut c2 = base.clone();
+                            c2.strategy = Strategy::Pct { change: vec![step] };
+                            let r2 = runner.run(&c2);
+                            pct_runs += 1;
+                            if std::env::var_os("LLSIM_PCT_DEBUG").is_some() {
+                                eprintln!("pct prio {prio:?} change {step}: schedule {:?} history {:?}", r2.schedule, r2.history.iter().map(|h| (h.tid, h.invoke, h.ret, format!("{:?}", h.outcome))).collect::<Vec<_>>());
+                            }
+                            if !r2.violations.is_empty() {
+                                *c = c2;
+                                r = r2;
+                                break 'pct;
+                            }
+                        }
+                    }
+                }
                 let s = &r.stats;
                 let cs = &mut out.counters;
                 add(cs, "calls", s.calls);
@@ -193,6 +259,7 @@ impl Case {
                 add(cs, "gets_failed", s.gets_err);
                 add(cs, "puts_ok", s.puts_ok);
                 add(cs, "sim_steps", s.steps);
+                add(cs, "fault_pct_sweep_runs", pct_runs);
                 add(cs, "cross_thread_conflicts", s.conflicts);
                 add(cs, "persistent_writes", s.persist_writes);
                 add(cs, "fault_crash_points", s.crash_points);
@@ -268,12 +335,21 @@ impl Case {
 /// Does `case` still show a violation with signature `sig` of `prop`?
 fn still_fails(case: &mut Case, ctx: &Ctx, props: Props, prop: &str, sig: &str) -> bool {
     let out = case.run(ctx, props, None);
-    out.violations.iter().any(|v| v.prop == prop && v.sig == sig)
+    out.violations
+        .iter()
+        .any(|v| v.prop == prop && v.sig == sig)
 }
 
 /// Shrink the case while the same violation signature persists. Every candidate is a full
 /// deterministic re-execution.
-pub fn minimise(case: &Case, ctx: &Ctx, props: Props, prop: &str, sig: &str, budget: usize) -> (Case, usize) {
+pub fn minimise(
+    case: &Case,
+    ctx: &Ctx,
+    props: Props,
+    prop: &str,
+    sig: &str,
+    budget: usize,
+) -> (Case, usize) {
     let mut best = case.clone();
     let mut tries = 0usize;
     let mut attempt = |cand: Case, best: &mut Case, tries: &mut usize| -> bool {
@@ -347,13 +423,21 @@ pub fn minimise(case: &Case, ctx: &Ctx, props: Props, prop: &str, sig: &str, bud
             {
                 let mut c = best.clone();
                 let out = c.run(ctx, props, None);
-                if out.violations.iter().any(|v| v.prop == prop && v.sig == sig) {
+                if out
+                    .violations
+                    .iter()
+                    .any(|v| v.prop == prop && v.sig == sig)
+                {
                     c.freeze();
                     best = c;
                 }
             }
             // 1. drop whole threads (keep the thread count: the schedule names thread ids)
-            let n = if let Case::Conc(c) = &best { c.programs.len() } else { 0 };
+            let n = if let Case::Conc(c) = &best {
+                c.programs.len()
+            } else {
+                0
+            };
             for t in 0..n {
                 if let Case::Conc(cur) = &best
                     && !cur.programs[t].is_empty()
